@@ -451,7 +451,9 @@ def build_ugrid(spec):
     names = enc["names"]
     start_index = enc["start_index"]
     np_dtype = NP_DTYPES[enc.get("dtype", "i4")]
-    fill_value = enc.get("fill_value", 999999 if np_dtype != numpy.int16 else 32767)
+    fill_value = enc.get("fill_value")
+    if fill_value is None:
+        fill_value = 999999 if np_dtype != numpy.int16 else 32767
     fill_style = enc["fill"]
     supply = enc["supply"]
     transposed = enc.get("transposed", [])
@@ -619,16 +621,36 @@ def build(spec):
 
 
 def bind_convention(spec, dataset):
-    """Return the convention object for a dataset built from ``spec`` (bound via the accessor
-    when auto-detection is how this family is used, explicitly constructed otherwise)."""
+    """Return the convention object for a dataset built from ``spec``: bound through the accessor
+    (auto-detection), or constructed explicitly and bound (spec["bind"] == "explicit"; always for
+    the generic Arakawa C class, which cannot be detected).  ``spec["warmup"]`` lists cached
+    properties to read, in that order, before the caller starts looking: reading them must not
+    change anything."""
     from vf.common import import_emsarray
     import_emsarray()
-    if spec["conv"] == "arakawa":
-        from emsarray.conventions.arakawa_c import ArakawaC
-        conv = ArakawaC(dataset, coordinate_names=arakawa_coordinate_names())
+    import warnings
+    import emsarray.conventions as conventions
+    conv_name = spec["conv"]
+    if conv_name == "arakawa":
+        conv = conventions.ArakawaC(dataset, coordinate_names=arakawa_coordinate_names())
         conv.bind()
-        return conv
-    return dataset.ems
+    elif spec.get("bind") == "explicit":
+        cls = getattr(conventions, EXPECTED_CLASS[conv_name])
+        if conv_name in ("cf1d", "cf2d"):
+            names = spec["geom"]["names"]
+            conv = cls(dataset, latitude=names["lat"], longitude=names["lon"])
+        else:
+            conv = cls(dataset)
+        conv.bind()
+    else:
+        conv = dataset.ems
+    for name in spec.get("warmup") or ():
+        # (warning filters are the caller's business: C06 records the warnings raised here)
+        try:
+            getattr(conv, name)
+        except Exception:
+            pass
+    return conv
 
 
 EXPECTED_CLASS = {
